@@ -1,15 +1,54 @@
 """C05 - reading a ragged array equals reading the list of its rows."""
-from pyvc.runner import Run, resolve_failures
+import itertools
+from pyvc.runner import Run, Unit, resolve_failures
+from contracts import ra_index as RI
+
+RA = 'enspara/ra/ra.py'
+MUT = [('error-check-lt', RA, "        if np.any(lengths[first_dimension] <= second_dimension):", "        if np.any(lengths[first_dimension] < second_dimension):"),
+       ('flat-index-shifted', RA, "    iis_flat = starts[first_dimension] + second_dimension\n", "    iis_flat = starts[first_dimension] + second_dimension + 1\n"),
+       ('caller-indices-aliased', RA, "iis_ragged\n    first_dimension = np.array(first_dimension)\n", "iis_ragged\n    first_dimension = np.asarray(first_dimension)\n"),
+       ('negative-row-off-by-one', RA, "            first_dimension[first_dimension_neg_iis] += len(starts)\n", "            first_dimension[first_dimension_neg_iis] += len(starts) - 1\n"),
+       ('negative-column-wrong-row', RA, "                    first_dimension[second_dimension_neg_iis]]", "                    second_dimension_neg_iis]")]
+MUTS = [('negative-stop-off-by-one', RA, "    elif stop < 0:\n        stop = length+stop\n    step", "    elif stop < 0:\n        stop = length+stop+1\n    step")]
+
+
+MUTI = [('stop-looked-up-by-position', RA, "    for num in first_dimension_iis:\n        splits_inds = np.arange(starts[num], stops[num], step)", "    for pos, num in enumerate(first_dimension_iis):\n        splits_inds = np.arange(starts[num], stops[pos], step)"),
+        ('negative-start-not-from-row-end', RA, "        starts = np.maximum(lengths + start, 0)", "        starts = np.zeros(lengths.shape, dtype=int)"),
+        ('negative-stop-off-by-one', RA, "        stops = lengths + stop\n", "        stops = lengths + stop + 1\n"),
+        ('stop-not-clipped-to-row', RA, "    stops[iis_to_flat] = lengths[iis_to_flat]\n", "    pass\n"),
+        ('row-ids-by-position', RA, "list(itertools.repeat(first_dimension_iis[i], iis_2d_lengths[i]))", "list(itertools.repeat(i, iis_2d_lengths[i]))")]
+MUTI_NONE = [('lengths-clobbered', RA, "    if stop is None:\n        stops = lengths\n", "    if stop is None:\n        stops = lengths\n        stops[0] = stops[0] + 1\n")]
+MUTL = [('product-swapped', RA, "list(itertools.product(first_dimension, second_dimension))", "list(itertools.product(second_dimension, first_dimension))")]
+
+
+def index_units(exclude=()):
+    units = [Unit('ra-index', RI.registry(), mutants=MUT + MUTL)]
+    for v in itertools.product((False, True), repeat=3):
+        name = 'ra-slice[%s]' % ','.join(k for k, isnone in zip(('start', 'stop', 'step'), v) if not isnone)
+        units.append(Unit(name, RI.registry_slice(*v), mutants=(MUTS if v == (False, False, False) else ())))
+    for v in itertools.product((False, True), repeat=3):
+        name = 'ra-2d-slice[%s]' % ','.join(k for k, isnone in zip(('start', 'stop', 'step'), v) if not isnone)
+        units.append(Unit(name, RI.registry_iis(*v, exclude=exclude), mutants=(MUTI if v == (False, False, False) else MUTI_NONE if v == (True, True, True) else ()), budget=15))
+    return units
 
 
 def run(tier, seed, update_lock=False):
     R = Run('C05', 'other', tier, seed)
-    R.bounded('ra.py', 'run-time contract = the statement (list-of-rows model) on the real RaggedArray reads',
+    units = index_units(R.excluded())
+    for u in units:
+        R.prove(u)
+    for u in units:
+        R.canary_check(u)
+    R.conformance('ra.py', units, args=['--prop=C05', '--exclude=' + ','.join(R.excluded())])
+    R.bounded('ra.py', 'run-time contract = the statement (list-of-rows model) on the real RaggedArray reads; the index helpers under their proved contracts',
               'ragged arrays <= 4 rows x length 1..4 (equal / unequal, 1-D and 2-D elements, nested-list and flat+lengths constructors); complete index grammar, bounds [-6,6], steps None/2/-1',
               args=['--prop=C05', '--exclude=' + ','.join(R.excluded())])
     R.report_known('ra.py')
     resolve_failures(R, 'ra.py', lambda f: None)
-    R.clauses = [{'clause': 'every read in the index grammar equals the read of the list of rows; element access outside a row raises IndexError', 'status': 'bounded (exhaustive small scope); listed findings excluded by witness class'},
+    R.clauses = [{'clause': 'two-dimensional slices a[rows, lo:hi:step] (positive step; each None-ness variant of the slice): _get_iis_from_slices returns, for the p-th selected row, exactly the positions range(*slice(lo,hi,step).indices(lengths[rows[p]])) of that row - new_lengths[p] is their number, block p of the column indices lists them in order, the row index over block p is rows[p]; `lengths` is unchanged. _get_iis_from_list is the row-major cartesian product', 'status': 'proved (SMT on the real helpers; loop invariant + two induction lemmas about the block offsets)'},
+                 {'clause': 'paired (row, column) indices: _convert_from_2d / _handle_negative_indices give flat[k] = starts[r\'] + c\' inside row r\' (never a neighbouring row), raise IndexError exactly when an element lies outside its row, and leave the caller\'s index arrays unchanged; _slice_to_list visits the rows Python slicing visits (bounds in [-n, n], positive step)', 'status': 'proved (SMT on the real helpers, symbolic lengths)'},
+                 {'clause': 'every read in the index grammar equals the read of the list of rows; element access outside a row raises IndexError', 'status': 'bounded (exhaustive small scope); listed findings excluded by witness class'},
                  {'clause': 'index-arithmetic helpers (partition_list / partition_indices) ', 'status': 'proved under C10'}]
-    R.assumptions += ['RaggedArray keeps two NumPy representations whose aliasing the executor does not model: class dispatch and constructor are bounded stand-ins']
-    return R.finish('Bounded stand-in (model-based run-time contract).', update_lock=update_lock)
+    R.assumptions += ['RaggedArray keeps two NumPy representations whose aliasing the executor does not model: class dispatch and constructor are bounded stand-ins',
+                      'row indices outside [-n, n) and scalar (size-1) index arguments of the helpers are outside the proved preconditions (NumPy itself raises for the former; the latter are covered by the bounded driver only)']
+    return R.finish('Deductive: the 2-D index conversion helpers. Bounded stand-in (model-based run-time contract) for the class itself.', update_lock=update_lock)
